@@ -80,7 +80,7 @@ class ColangParser:
             else:
                 # We make sure to capture the correct indentation level and use that.
                 lines[i] = re.sub(
-                    r"^( +)\.\.\.",
+                    r"^( +)\.\.\.[ \t]*(?:#.*)?$",
                     textwrap.dedent(
                         r"""
                         \1$flow_info = await GenerateFlowAction(flow_id=$self.flow_id)
